@@ -77,6 +77,8 @@ structure Lawful (c : Codec) : Prop where
   flush_small : ∀ s, utf8Len (c.decFlush s) ≤ 4
   /-- ASCII scalar values encode to themselves -/
   enc_ascii : ∀ ch : Char, ch.toNat < 128 → c.encChar ch = some [UInt8.ofNat ch.toNat]
+  /-- an encoded scalar value is 1 to 4 bytes long -/
+  enc_size : ∀ (ch : Char) (bs : Bytes), c.encChar ch = some bs → 1 ≤ bs.length ∧ bs.length ≤ 4
 
 end Codec
 
